@@ -33,6 +33,7 @@ U = memcalls.U
 # near-colliding pairs (indices into U), both orders are explored through `swap`
 PAIRS = [(0, 0), (0, 1), (0, 2), (1, 2), (4, 5), (6, 7), (8, 9), (10, 3), (8, 8), (3, 0), (3, 4), (6, 0)]
 PROGRAMS = {"plain": ("f", "f"), "rich": ("g", "g"), "methods": ("k1.m", "k2.m"), "partials": ("p10", "p20"),
+            "kw_partials": ("pk5", "pk7"),
             "async": ("co", "co")}
 BOUNDARY = ["none", "memory", "pickle"]
 
@@ -61,7 +62,7 @@ def _run_history(progs, form1, form2, form3, i1, i2, vb_spelled, shelve, compres
 
 def ob_hist(form1: int, form2: int, form3: int, pair: int, swap: bool, vb_spelled: bool, shelve: bool) -> bool:
     """
-    pre: 0 <= form1 <= 6 and 0 <= form2 <= 6 and 0 <= form3 <= 6
+    pre: 0 <= form1 <= 7 and 0 <= form2 <= 7 and 0 <= form3 <= 7
     pre: 0 <= pair <= 200
     post: _
     """
